@@ -152,6 +152,15 @@ theorem demo_known : KnownSt demoE demoTT 3 1 t08 28800 28800 (1 / 1000) demoL (
 theorem demo_A : (28800 : Rat) = ((0 : Int) : Rat) * secPerDay + todS demoP t08 := by
   rw [tod_demo]; simp [t08]
 
+/-- the state after the 08:00 alarm was served with the reading 08:00:00.0005 -/
+def demoL' : MtLocals Tod Rat :=
+  { demoL with v6 := some 2, v7 := 28800 + 5 / 10000, v9 := t08 }
+
+theorem demo_outcome : PassOutcome demoE demoTT 3 1 t08 28800 28800 0 (28800 + 2 / 1000) 7 demoL' (28800 + 6 / 10000) := by
+  refine ⟨rfl, rfl, rfl, le_refl _, rfl, ?_, 28800 + 6 / 10000, ?_, le_refl _, ?_, Or.inl ⟨rfl, rfl, ?_, ?_, ?_, rfl⟩⟩
+  all_goals simp only [demoL', demoE, ttError]
+  all_goals norm_num
+
 /-! a timetable of exactly the 24 full hours, times of day = `Fin 24` -/
 
 def hoursP : MtPrims Unit (Fin 24) Unit Unit where
